@@ -394,9 +394,20 @@ func history(g *gen, w *world) {
 			l.script = src.script.Clone()
 			switch g.rnd.Intn(5) {
 			case 0:
-				// same digest string, the server now sends something else
-				l.script.Body = append([]byte("changed "), g.bytes(20)...)
-				l.damage = "history-other-bytes-same-digest"
+				// same digest string, the server now sends something else: garbage, or
+				// another well-formed layer (what a wrong answer that got into the
+				// arena would show to the next user of the digest)
+				if g.rnd.Chance(1, 2) {
+					l.script.Body = append([]byte("changed "), g.bytes(20)...)
+					l.damage = "history-other-bytes-same-digest"
+				} else {
+					other, files := g.tarPayload()
+					w, _ := g.compress(other, l.comp)
+					l.script.Body = w
+					l.script.Chunks = nil
+					l.files, l.payload = files, other
+					l.damage = "history-other-layer-same-digest"
+				}
 				l.pristine = false
 			case 1:
 				l.script.Status = 404
